@@ -347,7 +347,7 @@ func valCoq(v valD) string {
 		if len(v.Body) > 0 {
 			ps = pk.Hex(v.Body)
 		}
-		ops = append(ops, hlib.App("HSetBodyStream", hlib.Z(-1), hlib.App("mkStream", "SKGenWriterTo", "["+ps+"]", "false")))
+		ops = append(ops, hlib.App("HSetBodyStream", hlib.Z(-1), hlib.App("mkStream", "SKGenWriterTo", "["+ps+"]", "false", "false")))
 	} else {
 		ops = append(ops, hlib.App("HSetBody", pk.Hex(v.Body)))
 	}
